@@ -27,6 +27,9 @@ pub struct GenCfg {
     pub e_contents: Vec<u8>,
     /// restrict the tag menu to its first n entries (0 = all)
     pub tag_menu_cap: usize,
+    /// menus = every operator x every property (x every tagged property): the frontend's own
+    /// operand-type rules decide which are accepted (C09 / C10 use this)
+    pub full_menus: bool,
 }
 
 impl GenCfg {
@@ -37,7 +40,7 @@ impl GenCfg {
 
 impl Default for GenCfg {
     fn default() -> Self {
-        GenCfg { max_vertices: 4, max_depth: 3, recurse_depths: vec![1, 2, 3], wide_filters: false, naming_devs: true, allow: None, e_names: None, e_contents: vec![0, 1], tag_menu_cap: 0 }
+        GenCfg { max_vertices: 4, max_depth: 3, recurse_depths: vec![1, 2, 3], wide_filters: false, naming_devs: true, allow: None, e_names: None, e_contents: vec![0, 1], tag_menu_cap: 0, full_menus: false }
     }
 }
 
@@ -185,7 +188,16 @@ pub fn prop_type(schema: &SchemaModel, ty: &str, prop: &str) -> Option<TyRef> {
 }
 
 /// (property, operator) menu for variable filters.
+pub const ALL_PROPS: [&str; 7] = ["id", "n", "s", "l", "ls", "f", "b"];
+pub const ALL_OPS: [&str; 20] = [
+    "=", "!=", "<", "<=", ">", ">=", "one_of", "not_one_of", "contains", "not_contains", "has_prefix", "not_has_prefix", "has_suffix", "not_has_suffix", "has_substring", "not_has_substring", "regex", "not_regex", "is_null",
+    "is_not_null",
+];
+
 fn filter_menu(cfg: &GenCfg) -> Vec<(&'static str, &'static str)> {
+    if cfg.full_menus {
+        return ALL_PROPS.iter().flat_map(|p| ALL_OPS.iter().map(move |o| (*p, *o))).collect();
+    }
     // every operator at least once (each has its own arm in apply_filter)
     let mut m = vec![
         ("n", "="),
@@ -217,6 +229,9 @@ fn filter_menu(cfg: &GenCfg) -> Vec<(&'static str, &'static str)> {
 
 /// (tagged property, filtered property, operator) menu for tag filters.
 fn tag_menu(cfg: &GenCfg) -> Vec<(&'static str, &'static str, &'static str)> {
+    if cfg.full_menus {
+        return ALL_PROPS.iter().flat_map(|t| ALL_PROPS.iter().flat_map(move |f| ALL_OPS.iter().take(18).map(move |o| (*t, *f, *o)))).collect();
+    }
     // every binary operator at least once with a tag operand (each has its own arm in apply_filter)
     let mut m = vec![
         ("n", "n", "="),
@@ -342,7 +357,7 @@ pub fn deviations(schema: &SchemaModel, q: &Query, cfg: &GenCfg) -> Vec<Query> {
                 Some(t) => t,
                 None => continue,
             };
-            if matches!(*op, "is_null" | "is_not_null") && !pt.nullable() {
+            if matches!(*op, "is_null" | "is_not_null") && !pt.nullable() && !cfg.full_menus {
                 continue;
             }
             if has_dir(node, prop, |d| matches!(d, Dir::Filter { op: o, .. } if o == op)) {
